@@ -237,6 +237,9 @@ func (ex *Exec) explore(st *State, rel *smt.Term, c *cont, first bool, spawned [
 			panic(unsupported("segment instruction budget exceeded in " + f.fn.String()))
 		}
 		ex.Instrs++
+		if ex.Instrs&1023 == 0 {
+			checkResources()
+		}
 		fr := f.asFrame()
 		if op := blockingOp(instr); op != "" && !first && !(op == "send" && ex.sendNeverBlocks(st, fr, instr.(*ssa.Send))) {
 			*out = append(*out, segResult{st: st, rel: rel, c: c, spawned: spawned})
